@@ -1165,6 +1165,50 @@ func delimiterBody(c *mc.Ctx, item int) mc.Verdict {
 	return v
 }
 
+// readDelimBody: readstring starts with the byte after the ONE white-space byte
+// that ends its token, whatever that byte and the following one are (a CR LF
+// pair there is a delimiter and a data byte).  Absolute oracle: the string read.
+var rsDelims = []string{" ", "\n", "\r", "\t", "\f", "\x00"}
+var rsFirst = []byte{0x0A, 0x0D, 0x20, 0x00, 0x09, 0x0C, 0x41, 0x80, 0xFF}
+var rsForms = []string{"currentfile s readstring", "R"} // directly, and through an RD-style procedure
+
+func readDelimBody(c *mc.Ctx, item int) mc.Verdict {
+	d := rsDelims[item%len(rsDelims)]
+	b0 := rsFirst[(item/len(rsDelims))%len(rsFirst)]
+	form := rsForms[(item/len(rsDelims)/len(rsFirst))%len(rsForms)]
+	cont := item / len(rsDelims) / len(rsFirst) / len(rsForms)
+	data := []byte{b0, 0x0A, 0x01, 0x0D}
+	p := plaintext{name: "readstring-delimiter", enc: "/s 4 string def /R { currentfile s readstring } def " + form + d + string(data) + " pop /t 7 def mark currentfile closefile\n"}
+	prog := append(buildSection(p, cont, "\n", defaultBinPrefix, nil), "\ncleartomark s t"...)
+	describe := func() string {
+		return fmt.Sprintf("`%s` ended by %q, data % x (%s): %s", form, d, data, contNames[cont], show(prog))
+	}
+	intp := postscript.NewInterpreter()
+	err := intp.Execute(bytes.NewReader(prog))
+	c.Step()
+	fail := func(class, detail string) mc.Verdict {
+		v := mc.Fail("C05:readstring-delimiter:"+class, detail+" | "+describe())
+		v.Render = describe()
+		return v
+	}
+	if err != nil {
+		return fail("error", "unexpected error "+err.Error())
+	}
+	if len(intp.Stack) != 3 {
+		return fail("stack", fmt.Sprintf("operand stack %v, expected the substring left by readstring, the string and 7", intp.Stack))
+	}
+	sub, ok1 := intp.Stack[0].(postscript.String)
+	got, ok2 := intp.Stack[1].(postscript.String)
+	if !ok1 || !ok2 || !bytes.Equal(got, data) || !bytes.Equal(sub, data) || intp.Stack[2] != postscript.Integer(7) {
+		return fail("wrong-bytes", fmt.Sprintf("readstring delivered % x / % x (then %v), the data after the delimiter is % x", []byte(sub), []byte(got), intp.Stack[2], data))
+	}
+	v := mc.Pass(contNames[cont], true)
+	if c.Render() {
+		v.Render = describe()
+	}
+	return v
+}
+
 // insideBody: "with the system dictionary pushed on the dictionary stack" — the
 // dictionary stack INSIDE the section is the one before `eexec` plus systemdict,
 // whatever stood on top before (systemdict itself, userdict, the same
@@ -1352,6 +1396,8 @@ func main() {
 				Rule: "item = (what the encrypted part does to the dictionary stack: nothing, 1..3 extra `end`, 1..2 extra `begin`, mixtures) x container (binary, hex lower/upper/mixed) x 0, 1, 2, 15..18 extra dictionaries open when eexec is entered (the last ones reach the limit of 20: the section must overflow exactly where the clear-text run does); after the section the dictionary stack must be exactly the one before it (depth and contents: names defined in the outer dictionaries resolve again); non-trivial = every case"})
 			fams = append(fams, mc.Family{Name: "closefile-followed-by-a-delimiter", Items: len(closeDelims) * 4 * len(closeBodies), Body: delimiterBody, Budget: budget,
 				Rule: fmt.Sprintf("item = the byte that ends the token `closefile` (last encrypted byte) and the clear text continuing from it, %d cases: / [ ( < {  %% starting a name, the empty name, arrays, strings, hexadecimal and ASCII85 strings, a dictionary, procedures, a comment and a DSC comment, and the white-space bytes SP LF NUL FF; x container {binary, hex lower / upper / mixed} x 4 encrypted bodies (closefile also inside a procedure); the state must equal that of `systemdict begin body mark end` followed by the delimiter and the clear text; non-trivial = all", len(closeDelims))})
+			fams = append(fams, mc.Family{Name: "readstring-delimiter-and-first-byte", Items: len(rsDelims) * len(rsFirst) * len(rsForms) * 4, Body: readDelimBody, Budget: budget,
+				Rule: fmt.Sprintf("item = the white-space byte that ends the token before the data (%q) x the first data byte (% x) x {readstring written out, an RD-style procedure} x container: four data bytes (first, LF, 01, CR) must be delivered exactly; in particular a CR as delimiter does not take a following LF with it; non-trivial = all", rsDelims, rsFirst)})
 			fams = append(fams, mc.Family{Name: "prefix-byte-sweep", Items: 4 * 256, Body: prefixSweepBody, Budget: budget,
 				Rule: "item = (position 0..3, byte value 0..255): binary section whose ciphertext prefix is three hex digits and that byte; x 3 plaintexts x trailers; differential against the clear-text run; non-trivial = the prefix is legal for the binary form"})
 			fams = append(fams, mc.Family{Name: "two-sections-in-one-stream", Items: len(plaintexts) * len(plaintexts) * 16, Body: twoSectionsBody, Budget: budget,
